@@ -256,6 +256,20 @@ def cond(e, env, cx):
         return cond(both, env, cx)
     if isinstance(e, ast.Compare) and len(e.ops) == 1:
         op, a, b = e.ops[0], e.left, e.comparators[0]
+        if isinstance(op, (ast.In, ast.NotIn)):
+            # x in (c1, c2, ...) over a literal tuple/list of constants, x an effect-free name: x == c1 or x == c2 or ...
+            if not isinstance(b, (ast.Tuple, ast.List)) or not b.elts or not all(isinstance(c, ast.Constant) for c in b.elts) \
+                    or not isinstance(a, ast.Name):
+                bad(e, "membership test other than <name> in <literal tuple of constants>")
+            links = []
+            for c in b.elts:
+                link = ast.Compare(left=a, ops=[ast.Eq()], comparators=[c])
+                ast.copy_location(link, e)
+                links.append(link)
+            anyof = links[0] if len(links) == 1 else ast.BoolOp(op=ast.Or(), values=links)
+            ast.copy_location(anyof, e)
+            bb, t = cond(anyof, env, cx)
+            return bb, ("(negb %s)" % t if isinstance(op, ast.NotIn) else t)
         if isinstance(op, (ast.Is, ast.IsNot)):
             ba, x, tx = expr(a, env, cx)
             if not isinstance(b, ast.Constant) or b.value not in (True, False, None):
@@ -728,6 +742,10 @@ def stmts(body, env, cx, k_end, k_break=None):
         if isinstance(s.value, ast.Call) and isinstance(s.value.func, ast.Name) and s.value.func.id == "cls":
             return ctor_call(s.value, env, cx)
         b, t, ty = expr(s.value, env, cx)
+        if cx.fn.ret is None and not b:
+            # the target's return value is not part of the modelled state (only the tracked self fields are): an effect-free
+            # returned expression is dropped
+            return result_term(cx, env, None)
         if cx.fn.ret == OPTINT and ty == INT:
             t, ty = "(Some %s)" % t, OPTINT                   # an int where an optional int is expected
         elif cx.fn.ret == OPTINT and ty == "none":
